@@ -289,12 +289,18 @@ def campaign_stall(ctx, n):
     SEC = 1_000_000_000
     worst = {}
     for _ in range(n):
-        pos = rng.choice(['sole', 'one-of-two', 'behind-relay'])
+        pos = rng.choice(['sole', 'one-of-two', 'behind-relay', 'one-of-two-eph-side'])
         nodes = [{'name': 'S', 'sources': [], 'beh': {'kind': 'src', 'topics': ['main']}, 'work': rng.choice([0, 10, 40]), 'out': True}]
         if pos == 'sole':
             nodes.append({'name': 'K', 'sources': ['ipc://S'], 'beh': {'kind': 'sink'}, 'work': rng.choice([0, 20, 150]), 'out': False}); victim = 'K'
         elif pos == 'one-of-two':
             nodes.append({'name': 'K', 'sources': ['ipc://S'], 'beh': {'kind': 'sink'}, 'work': rng.choice([0, 20, 150]), 'out': False})
+            nodes.append({'name': 'L', 'sources': ['ipc://S'], 'beh': {'kind': 'sink'}, 'work': rng.choice([0, 20]), 'out': False}); victim = 'K'
+        elif pos == 'one-of-two-eph-side':
+            # the stalling consumer also listens ephemerally to a side publisher, listed before or after the synchronised source
+            nodes.append({'name': 'T', 'sources': [], 'beh': {'kind': 'src', 'topics': ['side']}, 'work': 30, 'out': True})
+            srcs = ['ipc://T?;side', 'ipc://S'] if rng.random() < 0.7 else ['ipc://S', 'ipc://T?;side']
+            nodes.append({'name': 'K', 'sources': srcs, 'beh': {'kind': 'sink'}, 'work': rng.choice([0, 20, 150]), 'out': False})
             nodes.append({'name': 'L', 'sources': ['ipc://S'], 'beh': {'kind': 'sink'}, 'work': rng.choice([0, 20]), 'out': False}); victim = 'K'
         else:
             nodes.append({'name': 'R', 'sources': ['ipc://S'], 'beh': {'kind': 'pass'}, 'work': rng.choice([0, 20]), 'out': True})
